@@ -5,6 +5,7 @@ import (
 	"net"
 	"time"
 
+	"github.com/codelaboratoryltd/bng/pkg/allocator"
 	"github.com/codelaboratoryltd/bng/pkg/dhcpv6"
 	"github.com/codelaboratoryltd/bng/pkg/simrt"
 	"go.uber.org/zap"
@@ -46,6 +47,7 @@ type v6world struct {
 	reqKind  map[uint32]string
 	renewing map[uint32]map[string]string // xid -> kind -> value being renewed while unexpired
 	valid    time.Duration
+	tag      string // "v6" legacy pools, "v6alloc" integrated allocator.PoolAllocator pools
 }
 
 func (w *v6world) now() time.Duration { return w.c.S.Now() }
@@ -72,20 +74,20 @@ func (w *v6world) grant(cl *v6client, mtype uint8, kind, val string, validS uint
 		verb = "advertise"
 	}
 	if !inRange {
-		c.Fail("bad-address", fmt.Sprintf("v6/%s-outside-pool/%s", verb, kind), "%s of %s %s to client %d is outside the serving pool", verb, kind, val, cl.idx)
+		c.Fail("bad-address", fmt.Sprintf("%s/%s-outside-pool/%s", w.tag, verb, kind), "%s of %s %s to client %d is outside the serving pool", verb, kind, val, cl.idx)
 	}
 	if h, st := w.holder(kind, val, cl.idx); h >= 0 {
-		c.Fail("double-binding", fmt.Sprintf("v6/%s-foreign/%s/%s/req=%s", verb, kind, st, rk), "%s of %s %s to client %d while client %d has it %s", verb, kind, val, cl.idx, h, st)
+		c.Fail("double-binding", fmt.Sprintf("%s/%s-foreign/%s/%s/req=%s", w.tag, verb, kind, st, rk), "%s of %s %s to client %d while client %d has it %s", verb, kind, val, cl.idx, h, st)
 	}
 	if w.declined[val] {
-		c.Fail("declined-reoffered", fmt.Sprintf("v6/%s-declined/%s", verb, kind), "%s of %s %s to client %d although it was declined earlier", verb, kind, val, cl.idx)
+		c.Fail("declined-reoffered", fmt.Sprintf("%s/%s-declined/%s", w.tag, verb, kind), "%s of %s %s to client %d although it was declined earlier", verb, kind, val, cl.idx)
 	}
 	if want, ok := w.renewing[xid][kind]; ok && want != val && mtype == dhcpv6.MsgTypeReply {
-		c.Fail("renew", "v6/renew-changed/"+kind, "client %d renewing %s was answered with %s", cl.idx, want, val)
+		c.Fail("renew", w.tag+"/renew-changed/"+kind, "client %d renewing %s was answered with %s", cl.idx, want, val)
 	}
 	until := w.now() + time.Duration(validS)*time.Second
 	if mtype == dhcpv6.MsgTypeAdvertise {
-		w.offers[kind][cl.idx] = &v6bind{val, until}
+		w.offers[kind][cl.idx] = &v6bind{val, w.now() + c02OfferHold(time.Duration(validS)*time.Second)}
 		w.lastEv[val] = "offered"
 	} else {
 		delete(w.offers[kind], cl.idx)
@@ -98,7 +100,7 @@ func (w *v6world) onReply(_ *net.UDPConn, b []byte, to *net.UDPAddr) (int, error
 	c := w.c
 	m, err := dhcpv6.ParseMessage(b)
 	if err != nil {
-		c.Fail("reply", "v6/reply-unparsable", "server wrote an unparsable message: %v", err)
+		c.Fail("reply", w.tag+"/reply-unparsable", "server wrote an unparsable message: %v", err)
 		return len(b), nil
 	}
 	cid := m.GetOption(dhcpv6.OptClientID)
@@ -162,10 +164,10 @@ func (w *v6world) onReply(_ *net.UDPConn, b []byte, to *net.UDPAddr) (int, error
 	// a renewal of an unexpired binding that is answered without the value
 	if m.Type == dhcpv6.MsgTypeReply {
 		if want, ok := w.renewing[xid]["addr"]; ok && !gotAddr {
-			c.Fail("renew", "v6/renew-refused/addr", "client %d renewing its unexpired address %s got a Reply without it", cl.idx, want)
+			c.Fail("renew", w.tag+"/renew-refused/addr", "client %d renewing its unexpired address %s got a Reply without it", cl.idx, want)
 		}
 		if want, ok := w.renewing[xid]["pd"]; ok && !gotPfx {
-			c.Fail("renew", "v6/renew-refused/pd", "client %d renewing its unexpired prefix %s got a Reply without it", cl.idx, want)
+			c.Fail("renew", w.tag+"/renew-refused/pd", "client %d renewing its unexpired prefix %s got a Reply without it", cl.idx, want)
 		}
 	}
 	return len(b), nil
@@ -175,6 +177,7 @@ func c02GenV6(r *sim.Rand, tier string, cs *sim.Case) *sim.Case {
 	cs.Knobs["clients"] = int64(r.Range(2, 4))
 	cs.Knobs["valid_s"] = int64(sim.Pick(r, 60, 120, 3600))
 	cs.Knobs["mode"] = int64(r.N(3)) // 0 address only, 1 prefix only, 2 both
+	cs.Knobs["alloc"] = int64(r.Weighted(2, 1)) // 1 = integrated allocator.PoolAllocator pools instead of the legacy ones
 	cs.Knobs["skipmax"] = int64(sim.Pick(r, 1, 1, 4, 16))
 	cs.Knobs["maporder"] = int64(r.N(4))
 	n := r.Range(4, 14)
@@ -228,12 +231,35 @@ func c02RunV6(c *sim.Ctx) {
 	// 2001:db8:1::/126 -> three addresses (::1..::3); 2001:db8:100::/47 delegating /48 -> two prefixes
 	_, w.addrNet, _ = net.ParseCIDR("2001:db8:1::/126")
 	_, w.pfxNet, _ = net.ParseCIDR("2001:db8:100::/47")
-	if mode != 1 {
-		cfg.AddressPool = "2001:db8:1::/126"
-	}
-	if mode != 0 {
-		cfg.PrefixPool = "2001:db8:100::/47"
-		cfg.DelegationLength = 48
+	w.tag = "v6"
+	integrated := cs.Knob("alloc", 0) == 1
+	if integrated {
+		// the configuration cmd/bng builds when the allocator integration is on
+		w.tag = "v6alloc"
+		store := allocator.NewMemoryAllocationStore()
+		cfg.AllocationStore = store
+		if mode != 1 {
+			pa, err := allocator.NewPoolAllocatorWithType(allocator.PoolAllocatorConfig{PoolID: "v6addr", BaseNetwork: "2001:db8:1::/126", PrefixLength: 128, PoolType: allocator.PoolTypeIPv6Address, Store: store})
+			if err != nil {
+				panic(err)
+			}
+			cfg.AddressAllocator = pa
+		}
+		if mode != 0 {
+			pa, err := allocator.NewPoolAllocatorWithType(allocator.PoolAllocatorConfig{PoolID: "v6pd", BaseNetwork: "2001:db8:100::/47", PrefixLength: 48, PoolType: allocator.PoolTypeIPv6Prefix, Store: store})
+			if err != nil {
+				panic(err)
+			}
+			cfg.PrefixAllocator = pa
+		}
+	} else {
+		if mode != 1 {
+			cfg.AddressPool = "2001:db8:1::/126"
+		}
+		if mode != 0 {
+			cfg.PrefixPool = "2001:db8:100::/47"
+			cfg.DelegationLength = 48
+		}
 	}
 	srv, err := dhcpv6.NewServer(cfg, zap.NewNop())
 	if err != nil {
@@ -390,6 +416,11 @@ func c02RunV6(c *sim.Ctx) {
 			default:
 				d = 10 * time.Second
 			}
+			if d >= w.valid {
+				c.S.Fault("clock.jump-past-lease-expiry")
+			} else if d > 5*time.Second {
+				c.S.Fault("clock.jump-inside-lease")
+			}
 			c.S.Sleep(d)
 		case "burst":
 			n := int(op.Arg(0))
@@ -435,6 +466,9 @@ func c02RunV6(c *sim.Ctx) {
 		for i := 1; i <= 3; i++ {
 			units = append(units, unit{"addr", fmt.Sprintf("2001:db8:1::%d", i)})
 		}
+		if integrated {
+			units = append(units, unit{"addr", "2001:db8:1::"}) // the allocator hands out every /128 of the /126
+		}
 	}
 	if mode != 0 {
 		units = append(units, unit{"pd", "2001:db8:100::/48"}, unit{"pd", "2001:db8:101::/48"})
@@ -472,7 +506,7 @@ func c02RunV6(c *sim.Ctx) {
 			if expired > 0 {
 				cause = "expiry"
 			}
-			c.Fail("not-available-again", "v6/leak/"+k+"/"+cause, "after every valid lifetime ran out, fresh clients obtained %d distinct %s values, but %d were released, expired or never handed out (last events %v)",
+			c.Fail("not-available-again", w.tag+"/leak/"+k+"/"+cause, "after every valid lifetime ran out, fresh clients obtained %d distinct %s values, but %d were released, expired or never handed out (last events %v)",
 				len(got[k]), k, want[k], w.lastEv)
 		}
 	}
